@@ -14,6 +14,12 @@ CLAIMED = {
  "C07": ("tlc-trace", "TLC trace validation of the error-list / outcome laws on long erroneous inputs; non-returning parses observed through a killed child process", "5 C07"),
  "C08": ("tlc-trace", "TLC trace validation: reduce callbacks (order, arguments, span, parameter) against LRParse.tla; generic-tree mode against action mode", "5 C08"),
  "C09": ("tlc-lexer", "TLC bounded model of Lexer.tla over every small definition x every match environment + trace validation of lrlex runs with the regex engine as environment", "5 C09"),
+ "C10": ("tlc-src", "TLC evaluation of YaccSrc.GrammarOf(document) against every accessor of the parsed grammar, over seeded-random documents in several renderings (layout, comments, quoting, declaration order; Original / Grmtools / Eco)", "5 C10"),
+ "C11": ("tlc-src", "TLC evaluation of LexSrc.LexerDefOf(document) (rules, start states, targets, Unescape, spans) and of lexing under the flags the document puts in force", "5 C11"),
+ "C12": ("tlc-src", "TLC evaluation of the outcome contract (Totality.tla) on every outcome of the section / Yacc / lex parsers over mutated specifications, each run in a killable child process", "5 C12"),
+ "C13": ("tlc-ctrt", "translation validation: generated modules compiled by rustc and run next to the run-time pipeline; TLC compares lexemes, recorded action values / trees and errors with repair sets (TraceCTRT.tla)", "5 C13"),
+ "C14": ("tlc-pipe", "TLC trace validation of the stutter law Pipeline.Reconstitute on full observations before / after wincode serialise + _reconstitute, all widths and both encodings", "5 C14"),
+ "C15": ("tlc-pipe", "TLC: OnceInit.tla (all interleavings of first use) + trace validation of Pipeline.BuildDeterministic over K independent processes, generated modules, and 8-thread first use of compiled generated parsers", "5 C15"),
  "C16": ("tlc-trace", "TLC evaluation of view / graph consistency on every state x token x rule of the dumped graph and table", "5 C16"),
  "C17": ("tlc-trace", "TLC comparison of FIRST / FOLLOW / nullable / path / cost queries with declarative least fixed points; rule_min_costs transcribed to characterise non-termination", "5 C17"),
  "C18": ("tlc-ctbuild", "TLC bounded model of CTBuild.tla (all histories to a depth) + trace validation of build histories run on the real builders, one process per build, against clean builds", "5 C18"),
@@ -26,7 +32,15 @@ ENGINES = [
  dict(name="tlc-ctbuild", path="/verif/spec/CTBuild.tla", kind_free_text="CTBuild.tla, MC_CTBuild (bounded model), TraceCT (trace specification) over histories run by vh ctstep"),
  dict(name="tlc-nlc", path="/verif/spec/NewlineCache.tla", kind_free_text="NewlineCache.tla, MC_NewlineCache, TraceNLC"),
  dict(name="tlc-width", path="/verif/spec/Width.tla", kind_free_text="Width.tla, MC_Width, TraceWidth"),
+ dict(name="tlc-src", path="/verif/spec/YaccSrc.tla", kind_free_text="YaccSrc.tla, LexSrc.tla, Totality.tla with trace specifications TraceYSrc, TraceLSrc, TraceTotal over documents generated by lib/genyacc.py, lib/genlex.py"),
+ dict(name="tlc-ctrt", path="/verif/spec/TraceCTRT.tla", kind_free_text="generated crate (lib/p_ctrt.py) + TraceCTRT.tla"),
+ dict(name="tlc-pipe", path="/verif/spec/Pipeline.tla", kind_free_text="Pipeline.tla, OnceInit.tla, TracePipe.tla"),
 ]
+LEVEL = {"C13": "translation_validation", "C14": "exploration"}
+LEVELTEXT = {
+ "C13": "Translation validation: for every generated grammar/lexer pair the builders' output is compiled by rustc and executed next to the run-time pipeline on generated inputs; the observations (lexemes, a value that records every reduction with $span / $k / $lexer / $$, errors with repair sets) must coincide, judged by the trace specification TraceCTRT.tla.",
+ "C14": "Exploration with the specification's projection as oracle: the stutter law Pipeline.Reconstitute is checked by TLC on the full observation (every accessor, every cell, views, conflicts, parses) before and after serialise + reconstitute, for generated grammars x {u8,u16,u32} x {fixed, variable}. Encode/decode fidelity is not something a state model adds depth to, hence the level.",
+}
 NA_REASON = "check not built yet (planned in DESIGN.md section 8; nothing is claimed for it until it exists)"
 
 
@@ -42,7 +56,7 @@ def main():
         eng, tech, ref = CLAIMED[pid]
         checks.append(dict(property_id=pid, quick_cmd="./check %s --tier quick" % pid, thorough_cmd="./check %s --tier thorough" % pid,
                            evidence_file="/verif/evidence/%s.json" % pid, replay_cmd_template="./check %s --replay {path}" % pid,
-                           engine=eng, level_claimed=dict(category="model_checking", text=TV, design_ref="DESIGN.md section " + ref),
+                           engine=eng, level_claimed=dict(category=LEVEL.get(pid, "model_checking"), text=LEVELTEXT.get(pid, TV), design_ref="DESIGN.md section " + ref),
                            level_note="trusted: TLC, the harness reporting the public API / hooks faithfully, the regex crate, rustc, the file system; bounds and instance families are stated in each evidence file",
                            technique=tech))
     for e in ENGINES:
